@@ -473,3 +473,43 @@ func ForC03(thorough bool) []Family {
 		StructureExhaustive("flat3", 6, 3, true, 0),
 	}
 }
+
+// Workload is a fixed write workload used by the environment checks.
+type Workload struct {
+	Name    string
+	Target  string
+	Recs    []refpq.Val
+	Batches []int
+	Page    int
+	Codec   sut.Codec
+}
+
+// MixedRecords returns n structurally varied records of the target.
+func MixedRecords(t *sut.Target, n int) []refpq.Val {
+	f := &gen.Filler{}
+	pats := []string{"lists-2", "alternating", "none-null", "all-null", "one-in-8"}
+	out := make([]refpq.Val, n)
+	for i := range out {
+		out[i] = patterned(t.Schema(), pats[i%len(pats)], i, f)
+	}
+	return out
+}
+
+// Workloads lists the standard workloads: target x codec x layout.
+func Workloads(targets []string, codecs []sut.Codec) []Workload {
+	var out []Workload
+	for _, tn := range targets {
+		t := sut.Get(tn)
+		for _, cd := range codecs {
+			out = append(out,
+				Workload{fmt.Sprintf("%s/%s/1rg-1page", tn, cd), tn, MixedRecords(t, 3), []int{3}, 0, cd},
+				Workload{fmt.Sprintf("%s/%s/multipage", tn, cd), tn, MixedRecords(t, 5), []int{5}, 2, cd},
+				Workload{fmt.Sprintf("%s/%s/2rg", tn, cd), tn, MixedRecords(t, 6), []int{3, 3}, 2, cd},
+			)
+		}
+	}
+	return out
+}
+
+// Codecs3 is all three codecs.
+func Codecs3() []sut.Codec { return codecs3 }
